@@ -96,6 +96,35 @@ def corpus(rng, quick):
         {"StartAt": "A", "States": {"A": T("fa", Catch=[{"ErrorEquals": ["EA"], "Next": "R"}], Next="R"), "R": T("fr")}},
         {"StartAt": "B", "States": {"B": T("fb")}}]}}}, {"x": 1},
         {"fa": [("err", "EA", "m")], "fr": [("ok",)], "fb": [("err", "EB", "m")]}, {"fa": 5, "fr": 40, "fb": 20}))
+    # a transition that is refused (output over the size limit, or no Next at all): the consequence of the event is then
+    # issued by the error path (Catch successor or terminal record + notification), which the acknowledgement must follow
+    big = {"big": "x" * 140000, "items": [1, 2]}
+    dup = {"b.$": "$.big"}
+    catch = [{"ErrorEquals": ["States.ALL"], "Next": "R", "ResultPath": None}]
+    R = {"Type": "Pass", "Result": "recovered", "End": True}
+    for tag, extra in (("", {}), ("-catch", {"Catch": catch})):
+        out.append(S("oversize-task" + tag, {"StartAt": "T", "States": {"T": T("f1", Next="Z", ResultPath="$.dup", **extra),
+                                                                        "Z": {"Type": "Pass", "End": True}, "R": R}},
+                     big, {"f1": [("ok",)]}, {"f1": 10}))
+        out.append(S("oversize-parallel" + tag, {"StartAt": "P", "States": {"P": dict({"Type": "Parallel", "Next": "Z", "Branches": [
+            {"StartAt": "A", "States": {"A": {"Type": "Pass", "End": True}}},
+            {"StartAt": "B", "States": {"B": T("f1")}}]}, **extra), "Z": {"Type": "Pass", "End": True}, "R": R}},
+                     big, {"f1": [("ok",)]}, {"f1": 10}))
+        out.append(S("oversize-map" + tag, {"StartAt": "M", "States": {"M": dict({"Type": "Map", "ItemsPath": "$.items", "Next": "Z",
+            "ItemSelector": dup, "ResultPath": "$.dup", "ItemProcessor": {"StartAt": "A", "States": {"A": {"Type": "Pass", "End": True}}}},
+            **extra), "Z": {"Type": "Pass", "End": True}, "R": R}}, big))
+        out.append(S("nonext-task" + tag, {"StartAt": "T", "States": {"T": dict({"Type": "Task", "Resource": FN + "f1"}, **extra), "R": R}},
+                     {"x": 1}, {"f1": [("ok",)]}, {"f1": 10}))
+    out.append(S("oversize-pass", {"StartAt": "A", "States": {"A": {"Type": "Pass", "Parameters": dup, "ResultPath": "$.dup", "Next": "Z"},
+                                                                 "Z": {"Type": "Pass", "End": True}}}, big))
+    out.append(S("oversize-empty-map", {"StartAt": "M", "States": {"M": {"Type": "Map", "ItemsPath": "$.none", "Next": "Z",
+        "ResultSelector": {"b.$": "$$.Execution.Input.big"}, "ResultPath": "$.dup", "Iterator": {"StartAt": "A", "States": {"A": {"Type": "Pass", "End": True}}}},
+        "Z": {"Type": "Pass", "End": True}}}, dict(big, none=[])))
+    out.append(S("nonext-pass", {"StartAt": "A", "States": {"A": {"Type": "Pass"}}}, {"x": 1}))
+    out.append(S("nonext-wait", {"StartAt": "W", "States": {"W": {"Type": "Wait", "Seconds": 1}}}, {"x": 1}))
+    out.append(S("oversize-branch-task", {"StartAt": "P", "States": {"P": {"Type": "Parallel", "End": True, "Branches": [
+        {"StartAt": "T", "States": {"T": T("f1", Next="Z", ResultPath="$.dup"), "Z": {"Type": "Pass", "End": True}}},
+        {"StartAt": "B", "States": {"B": T("f2")}}]}}}, big, {"f1": [("ok",)], "f2": [("ok",)]}, {"f1": 10, "f2": 30}))
     # minimised / kept past failures (corpus/engine.json)
     for c in common.load_corpus("engine"):
         out.append(S(c["name"], c["machine"], c["input"], {k: [tuple(o) for o in v] for k, v in c["plans"].items()},
